@@ -88,7 +88,10 @@ def outputs(det, kind, X, c, is_ref):
             det.update(X[k - c["ov"]:])
         else:
             det.fit(X.iloc[:k])
-            det.update(X.iloc[k - c["ov"]:])
+            batch = X.iloc[k - c["ov"]:]
+            if core._bits(c, 12, 2) == 0:  # the new batch holds real-valued measurements whatever the dtype of the training data was
+                batch = batch.astype(np.float64) + 0.25
+            det.update(batch)
         out["fitted"] = {a: float(getattr(det, a)) for a in vars(det) if a.endswith("_") and not a.startswith("_") and np.isscalar(getattr(det, a))}
         y = det.predict(X)
         out["predict"] = frame_sig(y)
